@@ -75,6 +75,9 @@ type VC struct {
 	retSeen      map[string]int
 	lemmaPkg     *types.Package
 	preparing    bool
+	escaped      map[*ssa.Alloc]bool
+	allocBound   map[*ssa.Alloc]string
+	relSpecs     map[string]bool
 	warnings     []string
 	pendingGhostInit bool
 	ghostT       map[string]*GT
@@ -1074,8 +1077,58 @@ func (vc *VC) site(ins ssa.Instruction) string {
 	return ""
 }
 
+// rootAlloc follows FieldAddr/IndexAddr chains down to a heap Alloc.
+func rootAlloc(v ssa.Value) *ssa.Alloc {
+	for {
+		switch x := v.(type) {
+		case *ssa.Alloc:
+			return x
+		case *ssa.FieldAddr:
+			v = x.X
+		case *ssa.IndexAddr:
+			v = x.X
+		default:
+			return nil
+		}
+	}
+}
+
+// markEscapes records when the address of a freshly allocated object is used
+// other than to load from or store into it.
+func (vc *VC) markEscapes(ins ssa.Instruction) {
+	if vc.escaped == nil {
+		return
+	}
+	var ops []*ssa.Value
+	ops = ins.Operands(ops)
+	for _, op := range ops {
+		if op == nil || *op == nil {
+			continue
+		}
+		a := rootAlloc(*op)
+		if a == nil {
+			continue
+		}
+		addrUse := false
+		switch x := ins.(type) {
+		case *ssa.Store:
+			addrUse = x.Addr == *op && x.Val != *op
+		case *ssa.UnOp:
+			addrUse = true
+		case *ssa.FieldAddr, *ssa.IndexAddr:
+			addrUse = true
+		case *ssa.DebugRef:
+			addrUse = true
+		}
+		if !addrUse {
+			vc.escaped[a] = true
+		}
+	}
+}
+
 func (vc *VC) execInstr(ins ssa.Instruction, st *State) {
 	vc.curIns = ins
+	vc.markEscapes(ins)
 	switch x := ins.(type) {
 	case *ssa.DebugRef, *ssa.RunDefers, *ssa.Jump, *ssa.If:
 		return
@@ -1160,6 +1213,14 @@ func (vc *VC) execAlloc(x *ssa.Alloc, st *State) {
 		vc.regs[x] = Val{K: KPtr, T: x.Type(), Cell: x}
 		return
 	}
+	if vc.allocBound == nil {
+		vc.allocBound = map[*ssa.Alloc]string{}
+		vc.escaped = map[*ssa.Alloc]bool{}
+	}
+	vc.allocBound[x] = st.alloc
+	vc.escaped[x] = false
+	before := vc.snapshotHeaps(st)
+	defer func() { vc.storeSpecFrames(before, st, x, "") }()
 	addr := vc.fresh("new_"+x.Comment, "Addr")
 	vc.define(addr, vc.newRoot(st))
 	v := Val{K: KPtr, T: x.Type(), S: addr}
@@ -1243,6 +1304,8 @@ func (vc *VC) execStore(x *ssa.Store, st *State) {
 	}
 	t := x.Val.Type()
 	vc.nilCheck(addr, "store")
+	before := vc.snapshotHeaps(st)
+	defer func() { vc.storeSpecFrames(before, st, rootAlloc(x.Addr), addr.S) }()
 	if isScalarType(t) {
 		if addr.Heap == "" {
 			// pointer to scalar of unknown provenance: generic cell heap
